@@ -77,7 +77,17 @@ type SchedProfile struct {
 	// are, with probability BiasP, chosen last (delayed) or first.
 	BiasSites []string `json:"bias_sites,omitempty"`
 	BiasP     float64  `json:"bias_p,omitempty"`
+	// PreemptM > 0: statement-level preemption; each goroutine is parked at
+	// about one in PreemptM of the statements it executes (verifsim.Preempt)
+	PreemptM int `json:"preempt_m,omitempty"`
 }
+
+// curSched/curSeed: schedule profile and seed of the scenario being run (set
+// by the wrapper Register installs around Prop.Run; read by RunSim).
+var (
+	curSched SchedProfile
+	curSeed  uint64
+)
 
 // GenSched draws a schedule profile.
 func GenSched(r *Rand) SchedProfile {
@@ -95,6 +105,9 @@ func GenSched(r *Rand) SchedProfile {
 		p.Mode = "pct"
 		p.PCTd = r.Range(1, 4)
 		p.PCTlen = PickOf(r, 200, 1000, 5000)
+	}
+	if r.Bool(0.12) {
+		p.PreemptM = PickOf(r, 3, 10, 10, 30, 100)
 	}
 	if p.Mode != "fifo" || p.SwitchP > 0 || r.Bool(0.5) {
 		p.SelP = PickOf(r, 0.0, 0.1, 0.5, 1.0)
@@ -302,6 +315,9 @@ func RunSim(t *testing.T, o RunOpts, driver func(w *World)) (out Outcome) {
 				sim.MaxSteps = o.MaxSteps
 			}
 			sim.Stalls = o.Stalls
+			if curSched.PreemptM > 0 {
+				sim.EnablePreempt(uint64(curSched.PreemptM), curSeed)
+			}
 			w := newWorld(sim)
 			if o.Net != nil {
 				w.Net = verifsimnet.New(sim, *o.Net)
